@@ -6,12 +6,22 @@ import glob, json, os, re, subprocess, sys, tempfile, shutil
 from concurrent.futures import ThreadPoolExecutor
 
 
-def run_check(pr, wt):
-    c = subprocess.run(["/verif/check", pr, "--repo", wt], capture_output=True, text=True, cwd="/verif")
-    keys = re.findall(r"VIOLATION property=\S+ replay=\S+/replay/[A-Z0-9]+-(\S+)\.json", c.stdout)
-    rules = sorted(set(re.findall(r"^  rule=(\S+)", c.stdout, re.M)))
-    und = re.findall(r"UNDECIDED rule=(\S+)", c.stdout)
-    return pr, c.returncode, keys, rules, und
+def run_all(wt):
+    """all 19 properties in one process (shared facts and partial-evaluation results); -> {prop: (rc, keys, rules, undecided)}"""
+    import os, re, subprocess
+    env = dict(os.environ, FQR_GEOM_ALL="1")
+    c = subprocess.run(["/verif/check", "ALL", "--repo", wt], capture_output=True, text=True, cwd="/verif", env=env)
+    out = {}
+    for m in re.finditer(r"^==== (C\d\d)\n(.*?)^==== \1 exit=(\d)", c.stdout, re.S | re.M):
+        pr, body, rc = m.group(1), m.group(2), int(m.group(3))
+        keys = re.findall(r"VIOLATION property=\S+ replay=\S+/replay/[A-Z0-9]+-(\S+)\.json", body)
+        rules = sorted(set(re.findall(r"^  rule=(\S+)", body, re.M)))
+        und = re.findall(r"UNDECIDED rule=(\S+) (.*)", body)
+        mach = re.findall(r"MACHINERY-ERROR.*", body)
+        out[pr] = (rc, keys, rules, und, mach)
+    if len(out) != 19:
+        out["_error"] = (2, [], [], [], [c.stdout[-300:] + c.stderr[-300:]])
+    return out
 
 
 def one(d):
@@ -26,10 +36,9 @@ def one(d):
         if a.returncode:
             return sid, "PATCH DOES NOT APPLY"
         fired = {}
-        with ThreadPoolExecutor(4) as ex:
-            for pr, rc, keys, rules, und in ex.map(lambda p: run_check(p, wt), ["C%02d" % i for i in range(1, 20)]):
-                if keys or rc:
-                    fired[pr] = {"exit": rc, "rules": rules, "violations": keys[:6], "undecided": sorted(set(und))[:4]}
+        for pr, (rc, keys, rules, und, mach) in sorted(run_all(wt).items()):
+            if keys or rc:
+                fired[pr] = {"exit": rc, "rules": rules, "violations": keys[:6], "undecided": sorted({u[0] for u in und})[:4]}
         meta["checks"] = fired
         meta["detected_by"] = sorted(p for p, v in fired.items() if v["violations"])
         meta["detected_by_target_property"] = meta["property"] in meta["detected_by"]
@@ -46,7 +55,7 @@ def one(d):
 def main():
     pref = sys.argv[1:]
     dirs = sorted(d for d in glob.glob("/verif/seeded/*") if os.path.isdir(d) and (not pref or any(os.path.basename(d).startswith(p) for p in pref)))
-    with ThreadPoolExecutor(3) as ex:
+    with ThreadPoolExecutor(4) as ex:
         for sid, res in ex.map(one, dirs):
             print(sid, res)
             sys.stdout.flush()
